@@ -111,8 +111,8 @@ func eq(a, b string) string {
 	return app("=", a, b)
 }
 
-func sel(a, i string) string      { return app("select", a, i) }
-func sto(a, i, v string) string   { return app("store", a, i, v) }
+func sel(a, i string) string         { return app("select", a, i) }
+func sto(a, i, v string) string      { return app("store", a, i, v) }
 func constArr(sort, v string) string { return fmt.Sprintf("((as const %s) %s)", sort, v) }
 
 func smtName(s string) string {
